@@ -594,7 +594,10 @@ def run(args):
             reqs.append(prog_request(g, top, macros, recs, opts, fixed))
             metas.append(meta)
             for fn, t in files.items():
-                lreqs.append(",".join(l.encode().hex() for l in t.split("\n")[:-1]))
+                pl_ = t.split("\n")
+                if pl_ and pl_[-1] == "":
+                    pl_.pop()          # text ended with a line end; otherwise the last piece is a line of its own
+                lreqs.append(",".join((l[:-1] if l.endswith("\r") else l).encode().hex() for l in pl_))
                 lmetas.append((tag, fn, phys[fn], t))
             dist["programs"] += 1
             dist["class" + g.cls] += 1
